@@ -593,6 +593,7 @@ MC_CONN_SPEC = dict(module="MC_Conn", cfg="MC_Conn.spec.cfg", workers=8)
 MC_BUFFERS = dict(module="MC_Buffers", cfg="MC_Buffers.cfg", workers=4)
 MC_STREAMER = dict(module="MC_Streamer", cfg={"quick": "MC_Streamer.quick.cfg", "thorough": "MC_Streamer.thorough.cfg"}, workers=12)
 
+GEN_SESSION = dict(module="Gen_Session", cfg={"quick": "Gen_Session.quick.cfg", "thorough": ["Gen_Session.thorough.cfg", "Gen_Session.thorough2.cfg"]})
 GEN_CONN = dict(module="Gen_Conn", cfg={"quick": "Gen_Conn.quick.cfg", "thorough": "Gen_Conn.thorough.cfg"},
                 simulate={"quick": {"num": 150, "depth": 60}, "thorough": {"num": 2500, "depth": 80}})
 
@@ -610,8 +611,7 @@ REGISTRY = {
     "C04": dict(parts=[dict(mode="c04", trace_module="Trace_Stream", trace_cfg="Trace_Stream.cfg", props=["C04"]),
                        dict(mode="c04g", conn=True, trace_module="Trace_Stream", trace_cfg="Trace_Stream.cfg", props=["C04"], drift_props=["D04"])],
                 mc=[MC_SESSION], nontrivial=has_tx, assumptions=STREAM_ASSUME,
-                gen=dict(module="Gen_Session", cfg={"quick": "Gen_Session.quick.cfg",
-                                                    "thorough": ["Gen_Session.thorough.cfg", "Gen_Session.thorough2.cfg"]}),
+                gen=GEN_SESSION,
                 rule="scenario = history x (fault kind x packet/transaction index) as failed attempt(s) on ONE Streamer object, then a clean "
                      "attempt; fault kinds: socket close/reset, short packet, out-of-sequence packet, ERR, EOF, cancel, handler error, mapper "
                      "error, mapper column-count mismatch, RowsQuery/IntVar/Rand event, invalid event; both pacings; distinct by content. "
@@ -634,10 +634,12 @@ REGISTRY = {
                 nontrivial=has_tx, assumptions=STREAM_ASSUME,
                 rule="same schedule classes as C05 with arbitrary master error codes/messages; distinct by content; plus the TLC-generated "
                      "schedules of MC_Conn replayed with the hook points as scheduler gates (as C05 part 2)"),
-    "C07": dict(mode="c07", mc=[MC_SESSION], trace_module="Trace_Stream", trace_cfg="Trace_Stream.cfg", props=["C07"],
-                assumptions=STREAM_ASSUME,
+    "C07": dict(parts=[dict(mode="c07", trace_module="Trace_Stream", trace_cfg="Trace_Stream.cfg", props=["C07"]),
+                       dict(mode="c07g", trace_module="Trace_Stream", trace_cfg="Trace_Stream.cfg", props=["C07"])],
+                mc=[MC_SESSION], gen=GEN_SESSION, assumptions=STREAM_ASSUME,
                 rule="scenario = (server id, file name, offset) incl. ids >= 2^31, 255-byte and UTF-8 names, offsets to 2^32-1, 1-3 attempts with "
-                     "explicit re-positioning; plus histories with transport faults where later attempts must request the stored position"),
+                     "explicit re-positioning, the empty file name; plus histories with transport faults where later attempts must request the stored "
+                     "position; plus the sessions TLC generates from MC_Session (a quarter in quick, all in thorough): the handshake of every attempt"),
     "C08": dict(mode="c08", mc=[MC_BUFFERS], trace_module="Trace_Stream", trace_cfg="Trace_Stream.cfg", props=["C08"],
                 nontrivial=has_tx, assumptions=STREAM_ASSUME, trace_heap="6g",
                 rule="scenario = history with event sizes around the driver's 4096-byte buffer x pacing (later packets before/after the handler "
@@ -680,11 +682,13 @@ REGISTRY = {
                      "random payloads, database names 0..255 bytes, SQL 0..64KB, XID, INTVAR, RAND; header fields at their boundaries; every "
                      "event with and without the trailing CRC32"),
     "C17": dict(parts=[dict(mode="c17a", trace_module="Trace_Codec", trace_cfg="Trace_Codec.cfg", props=["C17"], block_ev=["case"]),
-                       dict(mode="c17s", trace_module="Trace_Stream", trace_cfg="Trace_Stream.cfg", props=["C17"])],
-                mc=[MC_STREAMER, MC_SESSION], assumptions=STREAM_ASSUME,
+                       dict(mode="c17s", trace_module="Trace_Stream", trace_cfg="Trace_Stream.cfg", props=["C17"]),
+                       dict(mode="c17g", trace_module="Trace_Stream", trace_cfg="Trace_Stream.cfg", props=["C17"], drift_props=["D04"])],
+                mc=[MC_STREAMER, MC_SESSION], gen=GEN_SESSION, assumptions=STREAM_ASSUME,
                 rule="case = byte string of length 0..64 with the length field in {len-1,len,len+1,0,18,19,2^32-1,len+2^8k} x type byte, every "
                      "well-formed event truncated at / extended from every length, random strings; scenario = such a packet injected at every "
-                     "index of a history (both pacings) followed by a clean attempt"),
+                     "index of a history (both pacings) followed by a clean attempt; plus every session of MC_Session (Gen_Session) in which the "
+                     "model injects an invalid packet, replayed on the real Streamer"),
     "C10": dict(parts=[dict(mode="c10", trace_module="Trace_Codec", trace_cfg="Trace_Codec.cfg", props=["C10"], block_ev=["case"]),
                        dict(mode="c10s", trace_module="Trace_Stream", trace_cfg="Trace_Stream.cfg", props=["C10"])],
                 mc=[MC_CELLSPEC], assumptions=CODEC_ASSUME,
